@@ -536,7 +536,9 @@ fn scenario_queue_timing(rng: &mut Rng, out: &mut Out) {
             out.count("empty_handed_samples", 1);
             if *el + 1000 < t_us {
                 out.violation("C17/miri/queue_timing/early", format!("pop_timeout({} ms) returned empty-handed after {} us of virtual time", t_ms, el), format!("{:?}", samples));
-            } else if *el > 2 * t_us + 10_000 {
+            } else if *el > 2 * t_us + 10_000 + 3_000 * pushes as u64 {
+                // every wake-up that yields nothing costs a loop iteration of executed code, which
+                // the virtual clock charges (about 3 ms each) but the queue does not deduct
                 // the virtual clock also advances while code executes (5 us per basic block; about
                 // 3 ms per wait iteration were measured), hence the 10 ms allowance on top of 2T
                 out.violation("C17/miri/queue_timing/late", format!("pop_timeout({} ms) returned empty-handed after {} us of virtual time", t_ms, el), format!("{:?}", samples));
@@ -886,6 +888,112 @@ fn scenario_pool_retire(rng: &mut Rng, out: &mut Out) {
     std::thread::sleep(Duration::from_secs(30));
 }
 
+/// Directed scenario: a task is dispatched at the very moment the idle period of the only idle
+/// (surplus) worker expires while all other workers are busy. Whatever the interleaving, the
+/// task must run: either the worker takes it before retiring or a new thread is started.
+fn scenario_pool_retire_race(rng: &mut Rng, out: &mut Out) {
+    let pool = TaskPool::new();
+    std::thread::sleep(Duration::from_secs(3));
+    let (tx, rx) = channel::<()>();
+    let rx = Arc::new(Mutex::new(rx));
+    let started = Arc::new(AtomicUsize::new(0));
+    for _ in 0..4 {
+        let (started, rx) = (started.clone(), rx.clone());
+        pool.spawn(Box::new(move || {
+            started.fetch_add(1, Ordering::SeqCst);
+            let _ = rx.lock().unwrap().recv();
+        }));
+    }
+    // the fifth task needs a fifth worker, which is idle right afterwards (timed wait: 5 s)
+    let short_done = Arc::new(AtomicUsize::new(0));
+    let sd = short_done.clone();
+    pool.spawn(Box::new(move || {
+        sd.fetch_add(1, Ordering::SeqCst);
+    }));
+    // wait until exactly one worker idles while the four others are busy
+    let mut guard = 0;
+    loop {
+        let s = pool.verif_snapshot();
+        if short_done.load(Ordering::SeqCst) == 1 && started.load(Ordering::SeqCst) == 4 && s.0 == 0 && s.1 == 1 {
+            break;
+        }
+        std::thread::sleep(Duration::from_micros(100));
+        guard += 1;
+        if guard > 200_000 {
+            out.eval("pool_retire_race|setup-failed".into());
+            drop(tx);
+            return;
+        }
+    }
+    // several attempts per run: after each dispatch exactly one worker is idle again
+    for attempt in 0..5 {
+        // wait until exactly one worker idles (the four others stay busy)
+        let mut guard = 0;
+        loop {
+            let s = pool.verif_snapshot();
+            if s.0 == 0 && s.1 == 1 {
+                break;
+            }
+            std::thread::sleep(Duration::from_micros(100));
+            guard += 1;
+            if guard > 200_000 {
+                break;
+            }
+        }
+        let t_obs = Instant::now();
+        let snap0 = pool.verif_snapshot();
+        // dispatch around the expiry of the idle period; how long the worker had already been
+        // waiting when we noticed is unknown (several virtual ms), so the phase is swept
+        let phase_us = rng.below(12_000) as u64; // target = t_obs + 5 s - 12 ms + phase
+        let target = t_obs + Duration::from_micros(5_000_000 - 12_000 + phase_us);
+        let now = Instant::now();
+        if target > now + Duration::from_millis(1) {
+            std::thread::sleep(target - now - Duration::from_millis(1));
+        }
+        while Instant::now() < target {
+            std::hint::spin_loop();
+        }
+        let ran = Arc::new(AtomicUsize::new(0));
+        let r2 = ran.clone();
+        pool.spawn(Box::new(move || {
+            r2.fetch_add(1, Ordering::SeqCst);
+        }));
+        let snap1 = pool.verif_snapshot();
+        // 20 virtual seconds: the task has run long ago, whoever took it
+        std::thread::sleep(Duration::from_secs(20));
+        let snap2 = pool.verif_snapshot();
+        out.eval(format!("pool_retire_race|phase{}", phase_us / 250));
+        out.count(&format!("after_dispatch:todo={},waiting={},active={}", snap1.0, snap1.1, snap1.2), 1);
+        if ran.load(Ordering::SeqCst) != 1 {
+            out.violation(
+                "C08/miri/pool_retire_race/task-stranded",
+                format!(
+                    "a task dispatched around the expiry of the only idle worker's idle period (phase {} us) never ran while the four other workers were busy; (queued, idle, running): before {:?}, right after dispatch {:?}, 20 s later {:?}",
+                    phase_us as i64 - 12_000,
+                    snap0,
+                    snap1,
+                    snap2
+                ),
+                String::new(),
+            );
+            break;
+        }
+        if out.samples.len() < 2 {
+            out.samples.push(format!("pool_retire_race: attempt {} phase {} us, snapshots {:?} -> {:?} -> {:?}", attempt, phase_us as i64 - 12_000, snap0, snap1, snap2));
+        }
+        // the worker that ran the task is idle again with 5 workers alive? if the pool shrank to
+        // four, grow it again with a short task while the four are busy
+        let s = pool.verif_snapshot();
+        if s.1 == 0 {
+            pool.spawn(Box::new(|| {}));
+        }
+    }
+    drop(tx);
+    std::thread::sleep(Duration::from_secs(2));
+    drop(pool);
+    std::thread::sleep(Duration::from_secs(30));
+}
+
 fn scenario_probe(out: &mut Out) {
     // deterministic ordering probe: timed consumer first, blocked consumer second, then one push
     let q: Arc<MessagesQueue<u32>> = MessagesQueue::with_capacity(8);
@@ -938,6 +1046,7 @@ fn main() {
             "framing" => scenario_framing(&mut rng, &mut out),
             "pool_burst" => scenario_pool_burst(&mut rng, &mut out),
             "pool_retire" => scenario_pool_retire(&mut rng, &mut out),
+            "pool_retire_race" => scenario_pool_retire_race(&mut rng, &mut out),
             other => {
                 eprintln!("unknown scenario {}", other);
                 std::process::exit(2);
